@@ -54,6 +54,9 @@ func RunC10(s *kernel.Sim) *World {
 		}
 	}
 	cfg := setec.StoreConfig{Logf: w.Logf, TimeNow: w.NowFn, PollTicker: w.Ticker}
+	// an expiry age must not matter for declared secrets, whatever stamps
+	// the cache carries (the documents below carry lastAccess 0)
+	cfg.ExpiryAge = []time.Duration{0, 0, time.Minute, time.Hour}[t.Choice(4)]
 	uniq := map[string]bool{}
 	for _, n := range declared {
 		uniq[n] = true
